@@ -192,7 +192,9 @@ func checkPadSink(p *Program, r *Report, fn *ssa.Function, padField string) {
 		}
 		if dataIdx < 0 {
 			if dbg {
-				for k, v := range s.facts {
+				for _, k := range sortedFactKeys(s) {
+					v := s.facts[k]
+					_ = v
 					fmt.Fprintf(os.Stderr, "    fact %s = %v\n", k, v)
 				}
 			}
@@ -244,7 +246,9 @@ func checkPadSink(p *Program, r *Report, fn *ssa.Function, padField string) {
 
 func pathFacts(s *State, about *Term) string {
 	var fs []string
-	for k, v := range s.facts {
+	for _, k := range sortedFactKeys(s) {
+		v := s.facts[k]
+		_ = v
 		if strings.Contains(k, about.key) {
 			fs = append(fs, fmt.Sprintf("%s=%v", strings.ReplaceAll(k, about.key, "P"), v))
 		}
